@@ -115,6 +115,47 @@ func is(p Pair, side int, rel, comp string) bool {
 	return side == 2 && p.Rel == rel && p.Comp == comp
 }
 
+// epAuth is the authentication an endpoint is called with in pairs about it (nil otherwise):
+// ep_auth = basic_auth, ep_apikey = api_key; "differ" changes the secret, the shift moves the boundary
+// between the two adjacent fields (user|password, name|value).
+func epAuth(p Pair, side int) map[string]any {
+	basic := func(u, pw string) map[string]any {
+		return map[string]any{"type": "basic_auth", "config": map[string]any{"user": u, "password": pw}}
+	}
+	apiKey := func(n, v string) map[string]any {
+		return map[string]any{"type": "api_key", "config": map[string]any{"in": "header", "name": n, "value": v}}
+	}
+
+	switch {
+	case p.Rel == "differ" && p.Comp == "ep_auth":
+		if side == 2 {
+			return basic("usr", "pw2")
+		}
+
+		return basic("usr", "pw")
+	case p.Rel == "shift" && p.Comp == "ep_auth.k|v":
+		if side == 2 {
+			return basic("a", "bc")
+		}
+
+		return basic("ab", "c")
+	case p.Rel == "differ" && p.Comp == "ep_apikey":
+		if side == 2 {
+			return apiKey("X-Api-Key", "k2")
+		}
+
+		return apiKey("X-Api-Key", "k1")
+	case p.Rel == "shift" && p.Comp == "ep_apikey.k|v":
+		if side == 2 {
+			return apiKey("X-Api-Key", "v")
+		}
+
+		return apiKey("X-Api-Ke", "yv")
+	}
+
+	return nil
+}
+
 // ---------------------------------------------------------------- remote authorizer / contextualizer
 
 type subParams struct {
@@ -237,6 +278,10 @@ func subHandler(p Pair, side int, base string, authz bool) (evalFn, error) {
 		epConf["headers"] = kvMap(sp.hdrs)
 	}
 
+	if au := epAuth(p, side); au != nil {
+		epConf["auth"] = au
+	}
+
 	conf := config.MechanismConfig{"endpoint": epConf, "payload": sp.payload, "cache_ttl": sp.ttl}
 	if len(sp.vals) != 0 {
 		conf["values"] = kvMap(sp.vals)
@@ -331,6 +376,10 @@ func genericAuthn(p Pair, side int, base string) (evalFn, error) {
 		epConf["headers"] = kvMap(h)
 	}
 
+	if au := epAuth(p, side); au != nil {
+		epConf["auth"] = au
+	}
+
 	conf := config.MechanismConfig{
 		"identity_info_endpoint":     epConf,
 		"authentication_data_source": []any{map[string]any{"header": "Authorization", "scheme": "Bearer"}},
@@ -395,6 +444,10 @@ func introspection(p Pair, side int, base string) (evalFn, error) {
 	epConf := map[string]any{"url": base + path}
 	if len(h) != 0 {
 		epConf["headers"] = kvMap(h)
+	}
+
+	if au := epAuth(p, side); au != nil {
+		epConf["auth"] = au
 	}
 
 	f, err := c10.NewFactory(&config.MechanismPrototypes{Authenticators: []config.Mechanism{{
